@@ -174,6 +174,28 @@ func genC02(g *G) {
 		}
 		g.Emit(J{"op": "agg.median", "f": f, "values": vals, "honest": []any{}, "starved": true}, "starved")
 	}
+	// starvation of the quote aggregator: at most f VALID quotes, padded with nils, other types and
+	// invalid quotes so that the raw list is longer than f
+	for i := 0; i < g.N(200, 2000); i++ {
+		f := 1 + g.R.Intn(3)
+		k := g.R.Intn(f + 1)
+		var vals []any
+		for j := 0; j < k; j++ {
+			vals = append(vals, svJ(rndQuote(g, true)))
+		}
+		for j := 1 + g.R.Intn(2*f+1); j > 0; j-- {
+			switch g.R.Intn(3) {
+			case 0:
+				vals = append(vals, nil)
+			case 1:
+				vals = append(vals, svJ(llo.ToDecimal(rndDec(g))))
+			default:
+				vals = append(vals, svJ(&llo.Quote{Bid: decimal.New(5, 0), Benchmark: decimal.New(4, 0), Ask: decimal.New(3, 0)}))
+			}
+		}
+		g.R.Shuffle(len(vals), func(a, b int) { vals[a], vals[b] = vals[b], vals[a] })
+		g.Emit(J{"op": "agg.quote", "f": f, "values": vals, "honest": []any{}, "starved": true}, "starved-quote")
+	}
 }
 
 func svDec(v any) (decimal.Decimal, bool) {
